@@ -59,7 +59,11 @@ theorem acceptsE_iff (cfg : Config) : ∀ (e : Expr) (n : Nat), okE (visitE cfg 
       obtain ⟨_, _, _, _, h⟩ := h
       exact trivialOnly_D h
   | .unary i op v, n => by acc_simp [acceptsE_iff cfg v]
-  | .binop i op l r, n => by acc_simp [acceptsE_iff cfg l, acceptsE_iff cfg r]
+  | .binop i op l r, n => by
+      simp only [visitE, acceptsE]
+      split
+      · next h => simp [okE_error, h]
+      · next h => simp only [h]; acc_simp [acceptsE_iff cfg l, acceptsE_iff cfg r]; simp
   | .compare i l ops rs, n => by
       simp only [visitE, acceptsE]
       split
